@@ -497,7 +497,11 @@ func (c *CqlServerConnection) outgoingLoop() {
 					abort = c.writeRawResponse(outgoing.rawResponse, c.conn)
 					log.Debug().Msgf("%v: sending outgoing raw response: %v", c, outgoing.rawResponse)
 				} else {
-					if c.compression != primitive.CompressionNone {
+					// with the modern framing layout (v5+) compression is applied to segments, never to individual
+					// envelopes, and the envelope-level flag is deprecated: this also holds for the READY or AUTHENTICATE
+					// that answers STARTUP, which is still sent unframed
+					if c.compression != primitive.CompressionNone &&
+						!outgoing.responseFrame.Header.Version.SupportsModernFramingLayout() {
 						outgoing.responseFrame.Header.Flags = outgoing.responseFrame.Header.Flags.Add(primitive.HeaderFlagCompressed)
 					}
 					log.Debug().Msgf("%v: sending outgoing frame: %v", c, outgoing.responseFrame)
@@ -582,7 +586,7 @@ func (c *CqlServerConnection) addMultiSegmentPayload(payload *segment.Payload) (
 
 func (c *CqlServerConnection) writeSegment(outgoing *frame.Frame, dest io.Writer) (abort bool) {
 	// never compress frames individually when included in a segment
-	outgoing.Header.Flags.Remove(primitive.HeaderFlagCompressed)
+	outgoing.Header.Flags = outgoing.Header.Flags.Remove(primitive.HeaderFlagCompressed)
 	encodedFrame := &bytes.Buffer{}
 	if abort = c.writeFrame(outgoing, encodedFrame); abort {
 		abort = true
